@@ -284,6 +284,92 @@ def differential(engine, cases, result, prop, tier, known=None, keep_prefix=1, n
     return viol
 
 
+class Session:
+    """Interactive run of nvdrive: the generator sees each output before choosing the next operation."""
+
+    def __init__(self, engine):
+        self.p = subprocess.Popen([NVDRIVE], stdin=subprocess.PIPE, stdout=subprocess.PIPE, stderr=subprocess.DEVNULL, text=True, env=GOENV, bufsize=1)
+        self.engine = engine
+        self.lines = []
+        self.outs = []
+        self._raw('engine ' + engine)
+
+    def _raw(self, line):
+        self.p.stdin.write(line + '\n')
+        self.p.stdin.flush()
+        o = self.p.stdout.readline()
+        if not o:
+            return '<no output: implementation process ended>'
+        return o.rstrip('\n')
+
+    def new_case(self):
+        self.lines = []
+        self.outs = []
+        self._raw('case 0')
+
+    def send(self, line):
+        o = self._raw(line)
+        self.lines.append(line)
+        self.outs.append(o)
+        return o
+
+    def close(self):
+        try:
+            self.p.stdin.close()
+            self.p.wait(timeout=30)
+        except Exception:
+            self.p.kill()
+
+
+def differential_interactive(engine, gen, n, rng, tier, result, nontrivial=None, keep_prefix=1, max_report=3):
+    """gen(rng, tier, sess) drives the implementation; the recorded scripts are then replayed on the model."""
+    t0 = time.time()
+    cov = result['coverage']
+    distinct = cov.setdefault('_distinct', set())
+    sess = Session(engine)
+    recs = []
+    for _ in range(n):
+        sess.new_case()
+        gen(rng, tier, sess)
+        recs.append((sess.lines, sess.outs))
+    sess.close()
+    text = 'engine %s\n' % engine
+    for i, (c, _) in enumerate(recs):
+        text += 'case %d\n' % i + '\n'.join(c) + '\n'
+    rc2, model, err2 = run_script(NVMODEL, text, 3000)
+    mc = split_cases(model)
+    viol = []
+    for i, (c, io) in enumerate(recs):
+        cov['evaluations'] += 1
+        mo = mc[i][1] if i < len(mc) else None
+        if mo is not None and io == mo:
+            if nontrivial is None or nontrivial(c, io):
+                distinct.add(hashlib.sha1('\n'.join(c).encode()).hexdigest())
+                if len(cov['samples']) < 3:
+                    cov['samples'].append({'engine': engine, 'script': c[:60], 'outputs': io[:60]})
+            cov['traces_validated_against_impl'] += 1
+            for l in c:
+                k = engine + ':' + ' '.join(l.split()[:1])
+                cov['op_histogram'][k] = cov['op_histogram'].get(k, 0) + 1
+            continue
+        d = compare_case(engine, c)
+        if d is None:
+            first = next((j for j in range(len(c)) if mo is None or j >= len(mo) or io[j] != mo[j]), -1)
+            d = {'line': first, 'op': c[first] if first >= 0 else '?', 'impl': io[first] if first >= 0 else '?',
+                 'model': (mo[first] if mo and first < len(mo) else '<none>'), 'note': 'differs in the interactive run only'}
+            small = c
+        else:
+            small = shrink_case(engine, c, keep_prefix=keep_prefix)
+            d = compare_case(engine, small) or d
+        viol.append({'engine': engine, 'script': small, 'diff': d, 'original_len': len(c)})
+        if len(viol) >= max_report:
+            break
+    cov['wall_diff_s'] = cov.get('wall_diff_s', 0) + time.time() - t0
+    if rc2 != 0 and not viol:
+        result['tie_errors'].append('model driver failed: rc=%s %s' % (rc2, err2[-300:]))
+    return viol
+
+
 # ----------------------------------------------------------------------------------------------
 # known findings, replays, evidence
 # ----------------------------------------------------------------------------------------------
